@@ -1,33 +1,69 @@
-// Package c15: format directives (skeleton).
+// Package c15: format renders every documented directive as defined, for all
+// parameters and arguments. Exhaustive enumeration of control strings x
+// arguments; every case runs the real (format dest control args...) for the
+// three kinds of destination and is compared with an independent renderer
+// (ref.go, english.go) written from the directive definitions.
 package c15
 
 import (
-	"strings"
+	"fmt"
 
 	"verif/engine"
-	"verif/lisp"
 )
 
 func init() {
 	engine.Register(&engine.Prop{
-		ID:        "C15",
-		Level:     "exploration",
-		Rule:      "skeleton",
-		Enumerate: func(tier string, emit func(string)) { emit("raw:(+ 1 2)") },
+		ID:    "C15",
+		Level: "exploration",
+		Rule: "every control string of the families listed in bound_completed x every listed argument tuple; each case calls the real " +
+			"(format nil|t|string-stream control args...) through ReadString+Eval with the control string and the arguments bound to " +
+			"variables, and compares the text with an independent Go renderer written from the directive definitions (own English " +
+			"speller, Roman writer, math/big digits + own sign/grouping/padding, own argument-pointer and block interpreter); ~A/~S/~@C " +
+			"are compared with princ-to-string/prin1-to-string of the same object (metamorphic). A failing case is reduced (directives, " +
+			"parameters, modifiers, arguments removed while the same kind of failure persists) and the signature names the reduced " +
+			"shape. A case is non-trivial when the reference defines its text and the control has a prefix parameter, a modifier, a " +
+			"block directive or at least two directives, or a bignum argument, or a ~R argument beyond +-20",
+		Assumptions: []string{
+			"princ-to-string / prin1-to-string are the printer oracle for ~A ~S ~@C (the printer itself is property C03)",
+			"only the directives named in the statement are rendered (~A ~S ~D ~B ~O ~X ~R ~C ~% ~& ~~ ~T ~* ~? ~( ~[ ~{ ~P ~;); " +
+				"~^ ~$ ~E ~F ~G ~W ~< ~/ ~= ~| ~I ~newline are outside the statement",
+			"calls whose text the definitions do not determine (wrong argument type, too few arguments, pointer moved outside the " +
+				"arguments, colinc 0, English beyond 10^66, Roman outside 1..3999) are executed but only the three destinations are compared",
+			"accepted readings (S2): ~& at the very start of the output may or may not emit a newline; ~colnum,colincT may follow CL or " +
+				"slip's documented 'column number x column width'; ~T with the cursor exactly at colnum may output nothing; bare ~@* may go " +
+				"to 0 or 1; digits above 9 in either case; 'twenty one' or 'twenty-one'; 'negative' or 'minus'",
+		},
+		Enumerate: enumerate,
 		Exec:      exec,
-		Bound:     func(tier string) string { return "skeleton" },
+		Required: []string{
+			"dir:~A", "dir:~S", "dir:~D", "dir:~B", "dir:~O", "dir:~X", "dir:~R", "dir:~C", "dir:~%", "dir:~&", "dir:~~", "dir:~T",
+			"dir:~*", "dir:~?", "dir:~(", "dir:~[", "dir:~{", "dir:~P",
+			"param:v", "param:#", "param:quoted-char", "block-inside-block", "argument-pointer-moved-back-or-absolute",
+			"recursive-control", "grouping-with-parameters", "bignum-argument", "composition", "three-destinations-agree",
+			"family:english", "family:roman", "family:composition", "family:nest",
+		},
+		Bound:    bound,
+		Selftest: selftest,
 	})
 }
 
-func exec(spec string) (res engine.Result) {
-	if strings.HasPrefix(spec, "raw:") {
-		v, err := lisp.Eval(spec[4:])
-		if err != nil {
-			res.Outcome = "err:" + err.String()
-		} else {
-			res.Outcome = lisp.Show(v)
-		}
-		return
+func bound(tier string) string {
+	n := 0
+	enumerate(tier, func(string) { n++ })
+	if tier == engine.Thorough {
+		return fmt.Sprintf("%d cases: ~D ~B ~O ~X x mincol{-,0,1,5,12,27,40} x padchar{-,'0,'.} x commachar{-,'_} x interval{-,1,2,3,4,7} x 4 modifier sets x 29 integers "+
+			"(0 .. +-10^30, both sides of 2^63); ~nR for 9 radixes x mincol x padchar x commachar x interval x modifiers; v/# parameter forms; every printable ASCII "+
+			"character as a quoted parameter; ~A ~S x mincol x colinc x minpad x padchar x modifiers x 21 objects; ~R and ~:R for every n in -20000..400000 and 15 "+
+			"multiples of every 10^k below 10^66; ~@R ~:@R for every n in 1..4999; ~C x 15 characters x 4 forms; ~% ~& ~~ counts 0..3 after 5 prefixes; ~T "+
+			"absolute/relative x colnum x colinc x 5 prefixes; ~* (21 forms) at 4 positions; ~P; ~[ (index -1..4, ~:;, #, v, ~:[, ~@[, nested); ~{ (4 forms x max "+
+			"count x lists 0..4 x nested lists, ~:}); ~( (4 forms, nested); ~? ~@?; all compositions of <= 4 items over a 20-item menu; 16 block wrappers around "+
+			"every 1 and 2 items and around every wrapped item (blocks inside blocks)", n)
 	}
-	return
+	return fmt.Sprintf("%d cases: ~D ~B ~O ~X x mincol{-,0,5,12} x padchar{-,'0,'.} x commachar{-,'_} x interval{-,1,3,4} x 4 modifier sets x 15 integers (0 .. +-10^20, "+
+		"both sides of 2^63); ~nR for 6 radixes x mincol x padchar x commachar x interval x modifiers; v/# parameter forms; every printable ASCII character as a "+
+		"quoted parameter; ~A ~S x mincol x colinc x minpad x padchar x modifiers x 21 objects; ~R and ~:R for every n in -1000..20000 and 6 multiples of every "+
+		"10^k below 10^66; ~@R ~:@R for every n in 1..4999; ~C x 15 characters x 4 forms; ~% ~& ~~ counts 0..3 after 5 prefixes; ~T absolute/relative x colnum "+
+		"x colinc x 5 prefixes; ~* (21 forms) at 4 positions; ~P; ~[ (index -1..4, ~:;, #, v, ~:[, ~@[, nested); ~{ (4 forms x max count x lists 0..4 x nested "+
+		"lists, ~:}); ~( (4 forms, nested); ~? ~@?; all compositions of <= 4 items over a 14-item menu; 16 block wrappers around every 1 and 2 items and around "+
+		"every wrapped item (blocks inside blocks)", n)
 }
